@@ -41,7 +41,7 @@ PROBE = {
     "rust": "\n\nfn extra_probe_fn() -> i32 {\n    98765\n}\n",
 }
 CM = {"python": "#", "typescript": "//", "javascript": "//", "rust": "//"}
-FORMS = ["same-line", "next-line", "block", "file-top", "file-late", "thailintignore", "config-ignore", "linter-ignore"]
+FORMS = ["same-line", "next-line", "block", "file-top", "file-late", "thailintignore", "config-ignore", "config-ignore-explicit", "linter-ignore"]
 SPELLINGS = ["full", "prefix", "wildcard", "alias", "alias-upper", "upper", "bare"]
 
 
@@ -177,12 +177,15 @@ def _other_cmd(name):
 
 def _run(cmd, files, cfg, extra_files=None):
     fs = dict(files)
+    explicit = bool(extra_files) and extra_files.get("@@explicit-config")
     if extra_files:
-        fs.update(extra_files)
-    if cfg:
+        fs.update({k: v for k, v in extra_files.items() if not k.startswith("@@")})
+    if cfg and explicit:
+        fs["lintcfg/chosen.yaml"] = yaml_dump(cfg)  # handed over with --config, nothing in the root
+    elif cfg:
         fs[".thailint.yaml"] = yaml_dump(cfg)
     root = project(fs)
-    r = obs.cli_json([cmd, "."], root)
+    r = obs.cli_json([cmd, "--config", "lintcfg/chosen.yaml", "."] if cfg and explicit else [cmd, "."], root)
     vs = None if r["violations"] is None else obs.norm(r["violations"], root, root)
     remove(root)
     return vs, r
@@ -260,7 +263,7 @@ def run_item(item) -> Acc:
                 mode = "differs"
             fail_map.setdefault((form, placement, mode), []).append((spelling, case, w3, g3))
         # other linter unchanged up to shift
-        if placement == "v1" and form not in ("thailintignore", "config-ignore"):
+        if placement == "v1" and form not in ("thailintignore", "config-ignore", "config-ignore-explicit"):
             og_all, _r2 = _run(ocmd, new_files, new_cfg, extra)
             acc.edge()
             og = sorted((t[0], t[1], t[2]) for t in (og_all or []) if t[0].startswith(oprefix))
@@ -293,7 +296,7 @@ def run_item(item) -> Acc:
                     continue
                 if spelling == "wildcard" and "." not in rid:
                     continue  # `prefix.*` for a rule id without sub-rules: not defined by the docs
-                if form in ("thailintignore", "config-ignore", "linter-ignore"):
+                if form in ("thailintignore", "config-ignore", "config-ignore-explicit", "linter-ignore"):
                     if spelling != "full" or placement not in ("v1", "names-other-linter"):
                         continue
                     # pattern forms: matching the file / matching nothing
@@ -305,6 +308,9 @@ def run_item(item) -> Acc:
                             extra = {".thailintignore": pat + "\n"}
                         elif form == "config-ignore":
                             nc = load.deep_merge(nc, {"ignore": [pat]})
+                        elif form == "config-ignore-explicit":
+                            nc = load.deep_merge(nc, {"ignore": [pat]})
+                            extra = {"@@explicit-config": "1"}
                         else:
                             if placement == "names-other-linter":
                                 osec = "srp" if section != "srp" else "nesting"
@@ -364,12 +370,13 @@ def run_item(item) -> Acc:
 
 def replay_case(case) -> list[dict]:
     fs = dict(case.get("files") or {})
+    explicit = bool((case.get("extra_files") or {}).get("@@explicit-config"))
     if case.get("extra_files"):
-        fs.update(case["extra_files"])
+        fs.update({k: v for k, v in case["extra_files"].items() if not k.startswith("@@")})
     if case.get("config"):
-        fs[".thailint.yaml"] = yaml_dump(case["config"])
+        fs["lintcfg/chosen.yaml" if explicit else ".thailint.yaml"] = yaml_dump(case["config"])
     root = project(fs)
-    r = obs.cli_subprocess([case.get("cmd", "dry"), "--format", "json", "."], root)
+    r = obs.cli_subprocess([case.get("cmd", "dry"), *(["--config", "lintcfg/chosen.yaml"] if explicit else []), "--format", "json", "."], root)
     for n, c in fs.items():
         print(f"--- {n} ---\n{c}")
     print(f"$ thailint {case.get('cmd', 'dry')} --format json .\nexit={r['exit_code']}\n{r['stdout'][:2000]}")
